@@ -69,7 +69,7 @@ Inductive conn :=
 | CPrefixed (pre : list N) (c : conn)                   (* prefixedConn: prefix[off:] *)
 | CSniffer (buf : list N) (derr : option rerr) (c : conn).  (* ConnSniffer: Sniffer.buf, Sniffer.dataError *)
 
-Definition bufio_size : N := 4096.   (* bufio.NewReader default size (Go standard library) *)
+Definition bufio_size : N := c05_bufio_size.   (* size of the detection reader handleConn builds (bufio.NewReader: 4096) *)
 
 Fixpoint conn_read (c : conn) (n : N) (s : sock) (now : N) : rres * conn * sock * N :=
   match c with
